@@ -238,3 +238,20 @@ NOT_APPLICABLE = {
     "C19": "every clause equates a closed-form floating-point expression with an expectation over multinomial sampling; no clause's "
            "truth is in the shape of the code beyond trivial wiring, so no sound static rule exists (DESIGN.md section 5)",
 }
+
+
+# rules added after the seeded-change rounds (appended so that the per-property texts above stay readable)
+_ADDENDA = {
+    "C05": " (K4, last sweep) the iterates of the sweep that satisfies the stopping test are appended to the history lists before the loop is left.",
+    "C06": " (O6) MProcess.to_povm builds element x from ROW 0 of the HS matrix (the adjoint map applied to the identity) with the factor sqrt(d).",
+    "C09": " (L7) calc_matA / calc_vecB build their result afresh from the sorted coefficient dictionaries on every call (no cached array that another method could update).",
+    "C08": " (M1, accessors) calc_matA / calc_vecB are pure functions of the coefficient dictionaries (fresh stack on every call, sorted key order).",
+    "C10": " (K4, last sweep) as in C05.",
+    "C11": " (A7) every row-structured cvxpy reshape of the variable vector states order='C' (cvxpy's default is column-major).",
+    "C12": " (W2, memoisation) a builder that keeps an existing derived value - a test on the derived field itself - does not count as a rebuild.",
+    "C14": " (G6) re-seeding discipline: an Experiment constructed inside quara is handed a seed only from a caller's seed parameter (never the stored seed of another object), and reset_seed_data is called only from the constructor or with the caller's own argument.",
+    "C15": " (H8) in the simulation / setting classes a keyword argument that names a field of the object is fed from the like-named field.",
+    "C16": " (X4, squeeze) axes are dropped only by naming them: an untargeted squeeze would also drop free axes of length 1.",
+}
+for _k, _v in _ADDENDA.items():
+    CLAIMS[_k]["text"] = CLAIMS[_k]["text"].rstrip() + _v
